@@ -32,9 +32,10 @@ def skolemize(g):
 def check_one(axioms, ob, timeout_ms):
     t0 = time.time()
     try:
-        goal = skolemize(ob.goal)
+        goal = ob.goal if os.environ.get("PYVC_NOSKOLEM") else skolemize(ob.goal)
     except Exception:
         goal = ob.goal
+    orig_goal = ob.goal
     ob = type(ob)(ob.oid, ob.kind, ob.hyps, goal, ob.meta)
     # stage 1: quantifier-free hypotheses only (a weakening: unsat here is a proof); fast and robust
     from .state import has_quant
@@ -50,7 +51,11 @@ def check_one(axioms, ob, timeout_ms):
     if s.check() == z3.unsat:
         return ("proved", "z3", time.time() - t0, None)
     # stage 2: full hypotheses; small portfolio (z3's quantifier engine is sensitive to configuration)
-    configs = [{"mbqi": True}, {"mbqi": False}, {"mbqi": True, "seed": 17}]
+    # (the goal with its universal quantifiers replaced by constants, and - where that differs - the goal as stated:
+    # each form is markedly easier for z3 on some obligations)
+    configs = [{"mbqi": True}, {"mbqi": True, "orig": True}, {"mbqi": False}, {"mbqi": True, "seed": 17}]
+    if orig_goal.eq(goal):
+        del configs[1]
     r = z3.unknown
     s = None
     for k, cfg in enumerate(configs):
@@ -63,10 +68,10 @@ def check_one(axioms, ob, timeout_ms):
         for a in axioms:
             s.add(a)
         s.add(*ob.hyps)
-        s.add(z3.Not(ob.goal))
+        s.add(z3.Not(orig_goal if cfg.get("orig") else ob.goal))
         r = s.check()
         if r == z3.unsat:
-            return ("proved", "z3" if k == 0 else "z3(cfg%d)" % k, time.time() - t0, None)
+            return ("proved", "z3" if k == 0 else "z3(%s)" % ("stated-goal" if cfg.get("orig") else "cfg%d" % k), time.time() - t0, None)
         if r == z3.sat and cfg.get("mbqi", True):
             break
     dt = time.time() - t0
